@@ -18,6 +18,9 @@ pub struct C18;
 const WIDE: &str = "CREATE TABLE w(line = '^W (\\\\S+) (\\\\S+) (\\\\S+) (\\\\S+) (\\\\S+) (\\\\S+) (\\\\S+) (\\\\S+) (\\\\S+) (\\\\S+)$', line[1] => c0 TEXT, line[2] => c1 INT, line[3] => c2 REAL, line[4] => c3 TEXT, line[5] => c4 INT, line[6] => c5 REAL, line[7] => c6 TEXT, line[8] => c7 INT, line[9] => c8 REAL, line[10] => c9 TEXT);";
 const JOINED: &str = "CREATE TABLE v(line = '^V (\\\\S+) (\\\\S+) (\\\\S+) (\\\\S+)$', line[1] => c0 TEXT, line[2] => c2 REAL, line[3] => x INT, line[4] => y TEXT);";
 
+/// same table name, same column names, other groups: what the joined file's lines mean differs
+const JOINED_ALT: &str = "CREATE TABLE v(line = '^V (\\\\S+) (\\\\S+) (\\\\S+) (\\\\S+)$', line[1] => c0 TEXT, line[2] => c2 REAL, line[4] => x INT, line[1] => y TEXT);";
+
 fn decoy(i: usize) -> String {
     let names = ["alpha", "beta", "gamma", "delta", "omega", "sigma", "zeta", "kappa"];
     format!("CREATE TABLE {}(line = '{}=([0-9]+)', line[1] => v{} INT);", names[i % names.len()], names[i % names.len()], i)
@@ -37,7 +40,7 @@ impl Property for C18 {
     }
 
     fn budget(&self) -> (u64, u64) {
-        (40_000, 300_000)
+        (30_000, 300_000)
     }
 
     fn rule(&self) -> &'static str {
@@ -71,7 +74,7 @@ impl Property for C18 {
                 "os_entropy": false,
             });
         }
-        let kind = *rng.pick(&["star", "star_join", "group", "group", "distinct_real", "distinct_real", "join_real", "join_int", "error_row", "group_special_real", "group_special_real", "name_lookup", "many_groups"]);
+        let kind = *rng.pick(&["star", "star_join", "group", "group", "distinct_real", "distinct_real", "join_real", "join_int", "error_row", "group_special_real", "group_special_real", "name_lookup", "many_groups", "history"]);
         let zero_heavy = kind == "distinct_real" || kind == "join_real" || kind == "group_special_real" || rng.chance(1, 4);
         // REAL values that are not ordinary numbers: NaN, infinities (legal literals for a REAL column)
         let special = kind == "group_special_real";
@@ -100,7 +103,7 @@ impl Property for C18 {
             lines.push(format!("W {} {} {} {} {} {} {} {} {} {}", c0, c1, c2, c3, c4, c5, c6, c7, c8, c9));
         }
         let mut joined: Vec<String> = Vec::new();
-        if kind.contains("join") {
+        if kind.contains("join") || kind == "history" {
             for key in keys_txt.iter().take(rng.range(1, 3) as usize) {
                 for _ in 0..rng.range(3, 6) {
                     joined.push(format!("V {} {} {} {}", key, gen_real(rng, zero_heavy), rng.range(-3, 3), rng.pick(&["p", "q", "r"])));
@@ -128,6 +131,7 @@ impl Property for C18 {
                 // the query names a table by a spelling that is not defined exactly; several look-alikes are
                 format!("SELECT * FROM {}", rng.pick(&["W", "wide", "Wide", "v2", "w "]).trim())
             }
+            "history" => format!("SELECT w.c0, v.c0, v.y, v.x FROM w {} JOIN v::'{}' ON w.c0 = v.c0", rng.pick(&["INNER", "OUTER"]), JOINED_PATH),
             "many_groups" => format!(
                 "SELECT {} COUNT(*) AS a0, SUM(c4) AS a1, COUNT(DISTINCT c3) AS a2 FROM w GROUP BY {}{}",
                 rng.pick(&["c0,", "c1,", "c0, c1,"]),
@@ -297,6 +301,38 @@ impl Property for C18 {
                 return out;
             }
             out.probe("os_entropy_runs", 1);
+        }
+        if kind == "history" {
+            // What ran earlier in the process must not matter: the same query Q, then a query P that joins the
+            // SAME file under the SAME table name but another definition of that table, then Q and P again; each
+            // must print what it prints when its joined file is reached through a path nothing has touched.
+            let alt_defs = defs.replace(JOINED, JOINED_ALT);
+            let run_q = |out: &mut Outcome, d: &str, path: &str, label: &str| {
+                let st = stmt.replace(JOINED_PATH, path);
+                let mut b = batch_spec(d, &st, &[file.clone()], None);
+                b.extra_files.push((path.to_owned(), jfile.clone()));
+                b.format = format.clone();
+                b.keys = vec![k0];
+                let r = run(out, label, &b, false);
+                (status_label(&r.status), records(&r))
+            };
+            let ref_q = run_q(&mut out, &defs, "/simfs/history_ref_q.log", "Q through an untouched path");
+            let ref_p = run_q(&mut out, &alt_defs, "/simfs/history_ref_p.log", "P through an untouched path");
+            let q1 = run_q(&mut out, &defs, JOINED_PATH, "Q");
+            let p1 = run_q(&mut out, &alt_defs, JOINED_PATH, "P after Q (same file, same table name, other definition)");
+            let q2 = run_q(&mut out, &defs, JOINED_PATH, "Q after P");
+            let p2 = run_q(&mut out, &alt_defs, JOINED_PATH, "P again");
+            for (name, got, want) in [("Q", &q1, &ref_q), ("P after Q", &p1, &ref_p), ("Q after P", &q2, &ref_q), ("P again", &p2, &ref_p)] {
+                if got != want {
+                    out.violate(
+                        "c18.depends_on_process_history",
+                        format!("{}: {} prints {} {} but the same query with the joined file reached through a fresh path prints {} {}", stmt, name, got.0, show(&got.1), want.0, show(&want.1)),
+                        features.clone(),
+                    );
+                    return out;
+                }
+            }
+            out.probe("history_sequences", 1);
         }
         if probe_orders.len() >= 2 && lines.len() >= 2 {
             let h = fnv_mix(fnv(serde_json::to_string(&json!([defs, stmt, lines, joined])).unwrap().as_bytes()), fnv(serde_json::to_string(&case["keys"]).unwrap().as_bytes()));
